@@ -690,15 +690,18 @@ Proof.
 Qed.
 
 (** * Cancellation at any point: what the "upx" part of the check observes *)
-Theorem xspec_sound cf s :
-  closes cf = true -> reachable cf s -> final cf s = true -> xspec_ok (xobs_of cf s) = true.
+Theorem xmodel_sound cf s :
+  closes cf = true -> reachable cf s -> final cf s = true -> xmodel_agrees (xobs_of cf s) = true.
 Proof.
   intros CL R F. unfold final in F. bool_hyps.
   rename H into CF, H2 into GE, H1 into RC, H0 into EA.
-  unfold xspec_ok, xobs_of, close_is_do. cbn. rewrite CF, GE. cbn.
+  unfold xmodel_agrees, xobs_of, close_is_do. cbn. rewrite CF, GE. cbn.
   unfold caller_finished in CF. rewrite CL in CF.
   destruct (caller s) as [| | |r] eqn:CA; try discriminate; try (destruct (todo s); discriminate).
   assert (C : close_result s = Some r) by (unfold close_result; rewrite CA; reflexivity).
   rewrite C. destruct (close_outcome cf s r R C) as [E _].
   unfold go_exited in GE. destruct (go s); try discriminate. cbn. rewrite E. apply result_eqb_refl.
 Qed.
+
+Theorem xagree_implies_spec dead o : xmodel_agrees o = true -> xspec_ok dead o = true.
+Proof. unfold xspec_ok. intros ->. reflexivity. Qed.
